@@ -24,3 +24,9 @@ package cloc
 //@ loop 2 invariant languageMap != nil
 //@ loop 2 invariant forall d string :: {d in languageMap} (d in languageMap) <==> FileDirIn(outputFiles, #i, d)
 //@ loop 2 invariant forall j int :: {outputFiles[j]} 0 <= j && j < #i ==> (Dir(outputFiles[j]) in languageMap)
+
+// C16, top-file report: the files of a language are ordered by sort.Slice with this comparison, which is "more code
+// lines first" on the files' own counts (sort.Slice's contract — a permutation ordered by the comparison — is external)
+//@ closure SortLangeByCode$1
+//@ requires 0 <= i && i < len(*files) && 0 <= j && j < len(*files) && (*files)[i] != nil && (*files)[j] != nil
+//@ ensures result == ((*(*files)[i]).Code > (*(*files)[j]).Code)
